@@ -322,7 +322,9 @@ func c16(r *Report) {
 			if !ok {
 				continue
 			}
-			if anyIn(w.backSlice(mu.Value, flowOpt{}), func(v ssa.Value) bool { return isCallValue(v, "(*M/proxyutil.Header).All") || isExtractOfCall(v, "(*M/proxyutil.Header).All") }) {
+			if anyIn(w.backSlice(mu.Value, flowOpt{}), func(v ssa.Value) bool {
+				return isCallValue(v, "(*M/proxyutil.Header).All") || isExtractOfCall(v, "(*M/proxyutil.Header).All")
+			}) {
 				syn = append(syn, mu)
 			} else {
 				raw = append(raw, mu)
@@ -368,7 +370,9 @@ func c16(r *Report) {
 			for _, st := range litFieldStores(a)["Encoding"] {
 				if s, isC := constString(st.Val); isC && s == "base64" {
 					okEnc = true
-				} else if anyIn(w.backSlice(st.Val, flowOpt{Calls: true}), func(v ssa.Value) bool { return isCallValue(v, "unicode/utf8.Valid") || isCallValue(v, "unicode/utf8.ValidString") }) {
+				} else if anyIn(w.backSlice(st.Val, flowOpt{Calls: true}), func(v ssa.Value) bool {
+					return isCallValue(v, "unicode/utf8.Valid") || isCallValue(v, "unicode/utf8.ValidString")
+				}) {
 					okEnc = true
 				}
 			}
